@@ -28,6 +28,7 @@ from . import cpu_count, get_context
 from . import util
 from .common import (
     TERM_SIGNAL, human_status, pickle_loads, reset_signals, restart_state,
+    _should_have_exited,
 )
 from .compat import get_errno, mem_rss, send_offset
 from .einfo import ExceptionInfo
@@ -361,6 +362,10 @@ class Worker:
                     try:
                         result = (True, prepare_result(fun(*args, **kwargs)))
                     except BaseException:
+                        if _should_have_exited[0]:
+                            # a termination signal asked this process to
+                            # exit: this is not the task's own exception.
+                            raise
                         result = (False, ExceptionInfo())
                     try:
                         put((READY, (job, i, result, inqW_fd)))
@@ -422,6 +427,7 @@ class Worker:
 
         # Make sure all exiting signals call finally: blocks.
         # This is important for the semaphore to be released.
+        _should_have_exited[0] = False  # not inherited from the parent
         reset_signals(full=self.sigprotection)
 
         # install signal handler for soft timeouts.
